@@ -4,6 +4,7 @@
 and stores it as /verif/seeded/<seed-id>/{patch.diff,demo_test.go,meta.json}."""
 import sys,os,subprocess,tempfile,shutil,json
 prop,src,sid,needs=sys.argv[1:5]
+also=sys.argv[5].split(',') if len(sys.argv)>5 else []
 env=dict(os.environ,GOFLAGS='-mod=mod',GOPROXY='off',GOSUMDB='off',GOTOOLCHAIN='local'); env.pop('GOWORK',None)
 def run(cmd,cwd):
     r=subprocess.run(cmd,shell=True,cwd=cwd,env=env,capture_output=True,text=True); return r.returncode,(r.stdout+r.stderr)
@@ -22,6 +23,10 @@ try:
     os.remove(D+'/zz_seed_demo_test.go')
     rc3,o3=run("/verif/bin/sipsp-sa check %s --repo %s --no-evidence"%(prop,D),'/verif')
     fails=[l for l in o3.splitlines() if l.startswith('FAIL')]
+    other={}
+    for q in also:
+        rcq,oq=run("/verif/bin/sipsp-sa check %s --repo %s --no-evidence"%(q,D),'/verif')
+        other[q]=dict(exit=rcq,reports=[l for l in oq.splitlines() if l.startswith('FAIL')][:4])
     res=dict(pristine_demo_passes=rc0==0,patched_builds=rcb==0,patched_suite_passes=rc1==0,patched_demo_fails=rc2!=0,
              check_exit=rc3,check_reports=fails[:6])
     print(json.dumps(res,indent=1)[:1500])
@@ -32,8 +37,8 @@ try:
     readme=open(src+'/README.txt').read() if os.path.exists(src+'/README.txt') else ''
     meta=dict(property=prop,breaks=readme[:1500],needs_to_manifest=needs,
       ran=["scratch copy of /repo + demo: go test -run TestSeedDemo -> pass","+patch: go build (default and -tags nodebug) -> ok","+patch: go test ./... (existing suite) -> pass","+patch: go test -run TestSeedDemo -> FAIL","+patch: sipsp-sa check %s --repo <copy> -> exit %d"%(prop,rc3)],
-      caught_by_check=(rc3==1),check_reports=fails[:6],written_by="independent sub-agent given only the property text")
+      caught_by_check=(rc3==1),check_reports=fails[:6],other_property_checks=other,caught_by_any=(rc3==1 or any(v['exit']==1 for v in other.values())),written_by="independent sub-agent given only the property text")
     json.dump(meta,open(out+'/meta.json','w'),indent=1)
-    print("KEPT",out,"caught" if rc3==1 else "MISSED")
+    print("KEPT",out,"caught" if rc3==1 else ("caught-by-"+",".join(q for q,v in other.items() if v['exit']==1) if any(v['exit']==1 for v in other.values()) else "MISSED"))
 finally:
     shutil.rmtree(D)
